@@ -1,8 +1,7 @@
 #!/usr/bin/env python3
 """Apply each seeded mutation to /repo, run the quick checks, undo, record what was caught."""
 import json, os, subprocess, sys, shutil, glob
-PROPS = [l.split('"')[3] for l in open('/verif/MANIFEST.json') if '"property_id"' in l]
-PROPS = sorted(set(PROPS))
+PROPS = sorted(c["property_id"] for c in json.load(open('/verif/MANIFEST.json'))["checks"])
 def sh(cmd, **kw):
     return subprocess.run(cmd, shell=True, stdout=subprocess.PIPE, stderr=subprocess.STDOUT, text=True, **kw)
 seeds = sys.argv[1:] or sorted(glob.glob('/verif/seeded/*/'))
